@@ -39,7 +39,7 @@ def check(ctx):
                 "lines, per connection) is validated by TLC against ProducerTrace.tla, which infers the unlogged write outcomes. "
                 "One evaluation = one script run; non-trivial = the script holds a fault; distinct by (script, retry limit, protocol).")
     ctx.assumptions += ["faults fall between messages (the hand-over channel is unbuffered) and 2-3 ms are left for FIN / RST to travel on loopback",
-                        "Kafka (sarama) is exercised at the boundary to the client library (a scripted sarama.AsyncProducer); NSQ, NATS and kafka-segmentio are not exercised: nothing is claimed about them"]
+                        "Kafka (sarama) is exercised at the boundary to the client library (a scripted sarama.AsyncProducer); NSQ with the real go-nsq client against a scripted nsqd (TCP protocol); NATS and kafka-segmentio are not exercised: nothing is claimed about them"]
     n = 6
     for r in (0, 1, 2):
         ctx.tlc_model("Producer", "mc.cfg", files={"mc.cfg": MC_CFG % dict(n=n, r=r, f=2, bug="FALSE", stalls="TRUE", props="BoundedGap Terminates")}, workers=8)
@@ -169,6 +169,7 @@ def check(ctx):
                           {"case": c, "result": r1b}, key="tcp:" + ("garbage" if r1b.get("garbage") else "order-or-gap"))
             break
     kafka(ctx, thorough)
+    nsq(ctx, thorough)
     ok_case = next((c, r) for c, r in zip(cases, res) if c["script"] and not r.get("hung"))
     ctx.sample({"script": ok_case[0]["script"], "maxretry": ok_case[0]["maxretry"], "events": ok_case[1]["events"]})
     # binding self-test: a duplicated delivery and a reordered one must be rejected
@@ -188,6 +189,107 @@ CONSTANTS N = 5
 INVARIANTS InOrderOnce HandedExactlyOnce
 CHECK_DEADLOCK FALSE
 """
+
+
+NSQ_CFG = """SPECIFICATION Spec
+CONSTANTS N = 5
+ MaxFaults = 2
+ RetryNotConnected = %s
+INVARIANTS InOrderNoDup NothingBeforeHandover
+PROPERTIES BoundedGap Terminates
+CHECK_DEADLOCK FALSE
+"""
+
+
+def nsq(ctx, thorough):
+    """the NSQ back end: the real inputMsg and the real go-nsq client against a scripted nsqd (TCP protocol)"""
+    ctx.tlc_model("ProducerNSQ", "n.cfg", files={"n.cfg": NSQ_CFG % "FALSE"}, workers=4)
+    ctx.tlc_must_fail("ProducerNSQ", "nd.cfg", files={"nd.cfg": NSQ_CFG % "TRUE"}, expect="InOrderNoDup", workers=4)
+    drv = ctx.go_build_test("producer", ["producer/rawsocket_verif_test.go", "producer/kafka_verif_test.go", "producer/nsq_verif_test.go"])
+    d = ctx.subdir("c14n")
+    n = 6
+    scripts = [[]]
+    for k in range(1, n + 1):
+        scripts.append([["ackloss", k]])
+        for j in range(k, n + 2):
+            scripts.append([["die", k], ["restart", j]])
+    for k in range(1, n):
+        scripts.append([["ackloss", k], ["ackloss", k + 1]])
+        scripts.append([["ackloss", k], ["die", k + 1], ["restart", min(n, k + 3)]])
+    if not thorough:
+        scripts = [s for i, s in enumerate(scripts) if (i + ctx.seed) % 2 == 0 or (s and s[0][0] == "ackloss")]
+    cases = [{"id": i, "n": n, "script": s} for i, s in enumerate(scripts)]
+    cin, cout = os.path.join(d, "cases.ndjson"), os.path.join(d, "out.ndjson")
+    vlib.write_ndjson(cin, cases)
+    rc, log, to = ctx.go_run(drv, "TestVerifNSQScripts", env={"VERIF_CASES": cin, "VERIF_OUT": cout}, timeout=900)
+    if rc != 0 or to:
+        if ("panic" in log or "fatal error" in log) and "producer/nsq.go" in log:
+            ctx.violation("the NSQ producer crashed while replaying fault scripts: " + re.search(r"(panic:[^\n]*|fatal error:[^\n]*)", log).group(1), {"log": log[-3000:]}, key="nsq:crash")
+            return
+        raise vlib.Infra("nsq driver failed:\n" + log[-2000:])
+    res = vlib.read_ndjson(cout)
+
+    def rows_of(r):
+        rows = [{"ev": "reset", "m": 0, "delivered": [], "errcount": 0}]
+        for e in r["events"]:
+            rows.append({"ev": e["ev"], "m": e.get("m", 0), "delivered": e.get("delivered") or [], "errcount": e.get("errcount", 0)})
+        return rows
+
+    def validate(rows):
+        out = ctx.tlc("ProducerNSQTrace", "ProducerNSQTrace.cfg", workers=1, timeout=900, files={"trace.ndjson": "".join(json.dumps(x) + "\n" for x in rows)})
+        ctx.states += out.distinct
+        ctx.transitions += out.generated
+        m = re.search(r'"REJECTED-AT-LINE", (\d+)', out.out)
+        if m:
+            return int(m.group(1))
+        if out.status != "ok":
+            raise vlib.Infra("ProducerNSQTrace ended unexpectedly: %s\n%s" % (out, out.out[-1200:]))
+        return None
+
+    rows, index = [], []
+    for c, r in zip(cases, res):
+        ctx.count(["nsq", c["script"]], nontrivial=bool(c["script"]))
+        if r.get("infra"):
+            raise vlib.Infra("nsq driver could not set up a scenario: " + r["infra"])
+        if r.get("hung"):
+            ctx.violation("NSQ producer stopped taking messages under fault script %s" % c["script"], {"case": c}, key="nsq:hung")
+            continue
+        if r.get("garbage"):
+            ctx.violation("nsqd received a message with another topic or other octets than handed over (script %s)" % c["script"], {"case": c, "result": r}, key="nsq:garbage")
+            continue
+        rr = rows_of(r)
+        rows += rr
+        index += [(c, r)] * len(rr)
+    for attempt in range(8):
+        if not rows:
+            break
+        bad = validate(rows)
+        if bad is None:
+            ctx.traces_validated += sum(1 for x in rows if x["ev"] == "reset")
+            break
+        c, r = index[bad - 1]
+        # re-run on its own, slowed down: a defect of the producer reproduces, a late goroutine on a loaded machine does not
+        vlib.write_ndjson(cin + ".1", [dict(c, id=0)])
+        rc1, log1, to1 = ctx.go_run(drv, "TestVerifNSQScripts", env={"VERIF_CASES": cin + ".1", "VERIF_OUT": cout + ".1", "VERIF_SLOW": 10}, timeout=300)
+        if rc1 != 0 or to1:
+            raise vlib.Infra("nsq driver failed on re-run:\n" + log1[-1500:])
+        r1 = vlib.read_ndjson(cout + ".1")[0]
+        if r1.get("infra"):
+            raise vlib.Infra("nsq driver could not set up a scenario: " + r1["infra"])
+        if not r1.get("hung") and not r1.get("garbage") and validate(rows_of(r1)) is None:
+            ctx.extra["nsq_scripts_rerun_in_isolation"] = ctx.extra.get("nsq_scripts_rerun_in_isolation", 0) + 1
+            keep = [k for k, (cc, _) in enumerate(index) if cc is not c]
+            rows, index = [rows[k] for k in keep], [index[k] for k in keep]
+            continue
+        end = (r1.get("events") or [{}])[-1]
+        ctx.violation("NSQ producer under fault script %s (reproduced when re-run on its own with 10x pauses): handed over messages 1..%d, "
+                      "nsqd received %s, %s errors counted - not a behaviour of ProducerNSQ.tla (in order, no duplicates, unmodified, delivery "
+                      "resumes after a failure)" % (c["script"], c["n"], end.get("delivered"), end.get("errcount")),
+                      {"case": c, "result": r1}, key="nsq:order-dup-gap")
+        break
+    ctx.extra["nsq_scripts"] = len(cases)
+    ctx.extra["nsq_examples"] = [{"script": c["script"], "delivered": (r.get("events") or [{}])[-1].get("delivered"),
+                                  "errcount": (r.get("events") or [{}])[-1].get("errcount")} for c, r in list(zip(cases, res))[:40:3]]
 
 
 def kafka(ctx, thorough):
